@@ -104,6 +104,23 @@ def snapshot_isolation(chk: Check, rule: str = 'PROV-snapshot-isolation') -> Non
                ' -- it is the object held in the persister\'s own table; a process continued from it mutates members in place (the load path copies nothing), '
                'so loading the same checkpoint again returns a changed "snapshot"; the pickle persister returns a freshly unpickled object every time'),
                node=rets[0] if rets else None, kind='load:fresh')
+    # ... "load_pickle" counts as fresh because it deserialises: EVERY value it returns comes straight from pickle.load on this call -- not from a table of
+    # pickles read earlier (an object handed out twice is shared by its two receivers: what a process continued from one does to it is in the other)
+    lp = pic.vmethods.get('load_pickle')
+    if lp is not None:
+        from ..rules import conditional_values as _cv
+        flp = chk.ctx.facts.analyse(lp)
+        rets = [r for r in ast.walk(lp.node) if isinstance(r, ast.Return) and r.value is not None]
+        bad = None
+        for r in rets:
+            v = r.value
+            vals = [x for _, x in _cv(flp, v.id)] if isinstance(v, ast.Name) else [v]
+            # (names bound by tuple unpacking / subscripts of a table are not plain assignments: conditional_values does not list them -- count the stores)
+            stores_ = [x for x in ast.walk(lp.node) if isinstance(x, ast.Name) and isinstance(x.ctx, ast.Store) and isinstance(v, ast.Name) and x.id == v.id]
+            if not vals or len(stores_) > len(vals) or not all(isinstance(x, ast.Call) and norm(x.func) in ('pickle.load', 'pickle.loads') for x in vals):
+                bad = bad or r
+        chk.ob(rule, lp, bool(rets) and bad is None, 'every value load_pickle returns is deserialised by this very call' + ('' if bad is None else
+               f' -- {norm(bad)} can hand out an object that was read (and handed out) before'), node=bad, kind='load:deserialised-each-time')
 
 
 
